@@ -61,8 +61,6 @@ def reflist(v):
 
 def projection(e):
   """The modelled columns of the metadata tables, as plain data (sorted by row id)."""
-  g = G()
-  names = {}
   P = {}
   P['tables'] = [dict(id=r, name=v['tableId'], primaryView=int(v['primaryViewId'] or 0),
                       summarySource=int(v['summarySourceTable'] or 0), raw=int(v['rawViewSectionRef'] or 0),
@@ -70,11 +68,12 @@ def projection(e):
   P['columns'] = [dict(id=r, parent=int(v['parentId'] or 0), kind=col_kind(v['colId']), colId=v['colId'],
                        display=int(v['displayCol'] or 0), visible=int(v['visibleCol'] or 0),
                        summarySource=int(v['summarySourceCol'] or 0), rules=reflist(v['rules']),
-                       pos=v['parentPos'])
+                       pos=v['parentPos'], formula=v['formula'], type=v['type'])
                   for r, v in rows_of(e, '_grist_Tables_column')]
   P['views'] = [r for r, v in rows_of(e, '_grist_Views')]
   P['sections'] = [dict(id=r, table=int(v['tableRef'] or 0), view=int(v['parentId'] or 0), rules=reflist(v['rules']),
-                        custom=bool(v['layoutSpec'] or v['options'] or v['rules'] or v['theme']),
+                        custom=bool(v['layoutSpec'] or v['options'] or v['theme']),
+                        cust=(v['layoutSpec'], v['options'], v['theme']),
                         key=v['parentKey'], link=int(v['linkSrcSectionRef'] or 0),
                         linkSrcCol=int(v['linkSrcColRef'] or 0), linkTargetCol=int(v['linkTargetColRef'] or 0))
                    for r, v in rows_of(e, '_grist_Views_section')]
@@ -367,3 +366,304 @@ def make_gen(rng, weights=None):
   if weights:
     w.update(weights)
   return Gen(rng, weights=w, max_tables=4)
+
+
+# ------------------------------------------------------------------------------------------------
+# Coq literals of a projection (MetaCascade.meta)
+
+class Names(object):
+  """Table ids (strings) as integer tokens, stable within one check run."""
+  def __init__(self):
+    self.tok = {}
+
+  def __call__(self, name):
+    if name not in self.tok:
+      self.tok[name] = len(self.tok) + 1
+    return self.tok[name]
+
+
+def ref_target(P, typ):
+  """Row id of the table a Ref:/RefList: type points at (0: not a reference type or no such table)."""
+  if not isinstance(typ, str) or ':' not in typ:
+    return 0
+  base, tgt = typ.split(':', 1)
+  if base not in ('Ref', 'RefList'):
+    return 0
+  for t in P['tables']:
+    if t['name'] == tgt:
+      return t['id']
+  return 0
+
+
+def coq_meta(P, names):
+  z, zl, bl = core.zlit, core.zlist, core.boollit
+  ts = ['mkT %s %s %s %s %s %s' % (z(t['id']), z(names(t['name'])), z(t['primaryView']), z(t['summarySource']),
+                                   z(t['raw']), z(t['card'])) for t in P['tables']]
+  cs = ['mkC %s %s %s %s %s %s %s %s' % (z(c['id']), z(c['parent']), z(c['kind']), z(c['display']), z(c['visible']),
+                                        z(c['summarySource']), zl(c['rules']), z(ref_target(P, c['type'])))
+        for c in P['columns']]
+  ss = ['mkS %s %s %s %s %s' % (z(s['id']), z(s['table']), z(s['view']), zl(s['rules']), bl(s['custom']))
+        for s in P['sections']]
+  fs = ['mkF %s %s %s %s %s %s %s' % (z(f['id']), z(f['section']), z(f['col']), z(f['display']), z(f['visible']),
+                                     zl(f['rules']), bl(f['wopt'])) for f in P['fields']]
+  pr = lambda l: core.coq_list(['(%s, %s)' % (z(b['id']), z(b['view'])) for b in l])
+  return '(mkM %s %s %s %s %s %s %s %s)' % (
+    core.coq_list(ts), core.coq_list(cs), zl(P['views']), core.coq_list(ss), core.coq_list(fs),
+    pr(P['tabbar']), pr(P['pages']), zl([names(n) for n in P['schema']]))
+
+
+def coq_op(o):
+  """o is a tuple (constructor, args...) with ints, bools and int lists."""
+  def lit(a):
+    if isinstance(a, bool):
+      return core.boollit(a)
+    if isinstance(a, int):
+      return core.zlit(a)
+    if isinstance(a, (list, tuple)):
+      return core.zlist(a)
+    raise ValueError(a)
+  if len(o) == 1:
+    return o[0]
+  return '(%s %s)' % (o[0], ' '.join(lit(a) for a in o[1:]))
+
+
+# ------------------------------------------------------------------------------------------------
+# recording a bundle: the projection before every user action, after the last one (before the auto-removals)
+# and at the end
+
+class Recorder(object):
+  def __init__(self):
+    import engine
+    import docmodel
+    for cls, name in ((engine.Engine, '_apply_one_user_action'), (docmodel.DocModel, 'apply_auto_removes')):
+      if not hasattr(cls, name):
+        raise core.TieBroken('instrumentation point %s.%s is gone' % (cls.__name__, name))
+    self.engine, self.docmodel = engine, docmodel
+    self.snaps = None
+    self.mid = None
+    rec = self
+    self.o_ua = engine.Engine._apply_one_user_action
+    self.o_ar = docmodel.DocModel.apply_auto_removes
+
+    def _apply_one_user_action(eng, ua):
+      if rec.snaps is not None:
+        rec.snaps.append(projection(eng))
+      return rec.o_ua(eng, ua)
+
+    def apply_auto_removes(dm):
+      if rec.snaps is not None and rec.mid is None:
+        rec.mid = projection(dm._engine)
+      return rec.o_ar(dm)
+
+    engine.Engine._apply_one_user_action = _apply_one_user_action
+    docmodel.DocModel.apply_auto_removes = apply_auto_removes
+
+  def uninstall(self):
+    self.engine.Engine._apply_one_user_action = self.o_ua
+    self.docmodel.DocModel.apply_auto_removes = self.o_ar
+
+  def run(self, e, bundle):
+    """Applies the bundle; returns (out, snaps, mid, final) -- snaps[i] is the state before action i."""
+    self.snaps, self.mid = [], None
+    try:
+      out = G().apply(e, bundle)
+      snaps, mid = self.snaps, self.mid
+    finally:
+      self.snaps, self.mid = None, None
+    final = projection(e)
+    if len(snaps) != len(bundle) or mid is None:
+      raise core.TieBroken('recorder saw %d user actions for a bundle of %d (mid %s)' %
+                           (len(snaps), len(bundle), mid is not None))
+    return out, snaps, mid, final
+
+
+# ------------------------------------------------------------------------------------------------
+# user action -> model op.  P: projection before the action, Q: projection after it (before auto-removals).
+# Parameters the model treats as environment (final table ids, column kinds decided by the sanitised column
+# ids, whether an equal display formula already exists) are read here.
+
+UNMODELLED = ('OUnmodelled',)
+NOMETA = ('ONoMeta',)
+
+
+def next_id(ids):
+  return max(ids) + 1 if ids else 1
+
+
+def translate(a, P, Q, names):
+  name = a[0]
+  T = {t['name']: t for t in P['tables']}
+  if name in ('AddTable', 'AddEmptyTable', 'AddRawTable'):
+    tid = next_id([t['id'] for t in P['tables']])
+    new = [t for t in Q['tables'] if t['id'] == tid]
+    if len(new) != 1:
+      return UNMODELLED
+    cols = [c for c in Q['columns'] if c['parent'] == tid and c['id'] >= next_id([c['id'] for c in P['columns']])]
+    if any(ref_target(Q, c['type']) or c['type'].split(':')[0] in ('Ref', 'RefList') for c in cols):
+      return UNMODELLED
+    if not cols or cols[0]['colId'] != 'manualSort':
+      return UNMODELLED
+    return ('OAddTable', names(new[0]['name']), [c['kind'] for c in cols[1:]], name != 'AddRawTable')
+  if name == 'RemoveTable':
+    return ('ORemoveTables', [T[a[1]]['id']]) if a[1] in T else UNMODELLED
+  if name in ('RemoveRecord', 'BulkRemoveRecord') and a[1] in META_TABLES:
+    ids = [a[2]] if name == 'RemoveRecord' else list(a[2])
+    if not all(isinstance(i, int) and i > 0 for i in ids):
+      return UNMODELLED
+    con = {'_grist_Tables': 'ORemoveTables', '_grist_Tables_column': 'ORemoveColumns', '_grist_Views': 'ORemoveViews',
+           '_grist_Views_section': 'ORemoveSections', '_grist_Views_section_field': 'ORemoveFields',
+           '_grist_TabBar': 'ORemoveTabs', '_grist_Pages': 'ORemovePages'}[a[1]]
+    return (con, ids)
+  if name in ('AddColumn', 'AddHiddenColumn'):
+    if a[1] not in T:
+      return UNMODELLED
+    info = a[3] or {}
+    if any(k in info for k in ('visibleCol', 'rules', 'displayCol', 'summarySourceCol')) or T[a[1]].get('onDemand'):
+      return UNMODELLED
+    cid = next_id([c['id'] for c in P['columns']])
+    new = [c for c in Q['columns'] if c['id'] == cid]
+    if len(new) != 1:
+      return UNMODELLED
+    reft = ref_target(Q, new[0]['type'])
+    if new[0]['type'].split(':')[0] in ('Ref', 'RefList') and not reft:
+      return UNMODELLED
+    transform = new[0]['colId'].startswith(('gristHelper_Transform', 'gristHelper_Converted')) or \
+        (a[2] or '').startswith(('gristHelper_Transform', 'gristHelper_Converted'))
+    con = 'OAddHiddenColumn' if (name == 'AddHiddenColumn' or transform) else 'OAddColumn'
+    return (con, T[a[1]]['id'], new[0]['kind'], reft)
+  if name == 'RemoveColumn':
+    if a[1] not in T:
+      return UNMODELLED
+    cs = [c for c in P['columns'] if c['parent'] == T[a[1]]['id'] and c['colId'] == a[2]]
+    return ('ORemoveColumns', [cs[0]['id']]) if len(cs) == 1 else UNMODELLED
+  if name == 'AddView':
+    if a[1].startswith('GristHidden_'):
+      return UNMODELLED
+    return ('OAddView', T[a[1]]['id'] if a[1] in T else 0, a[2] == 'raw_data')
+  if name == 'CreateViewSection':
+    tref, vref, typ, gb = a[1], a[2], a[3], a[4]
+    if gb is not None or typ in ('chart', 'form') or not isinstance(tref, int) or not isinstance(vref, int):
+      return UNMODELLED
+    newname = 0
+    if tref == 0:
+      tid = next_id([t['id'] for t in P['tables']])
+      new = [t for t in Q['tables'] if t['id'] == tid]
+      if len(new) != 1:
+        return UNMODELLED
+      newname = names(new[0]['name'])
+    return ('OCreateSection', tref, vref, typ in ('single', 'detail'), newname)
+  if name == 'RemoveViewSection':
+    return ('ORemoveSections', [a[1]])
+  if name == 'RemoveView':
+    return ('ORemoveViews', [a[1]])
+  if name == 'SetDisplayFormula':
+    if a[1] not in T:
+      return UNMODELLED
+    tid = T[a[1]]['id']
+    fld, col, formula = a[2] or 0, a[3] or 0, a[4]
+    if isinstance(col, str):
+      cs = [c for c in P['columns'] if c['parent'] == tid and c['colId'] == col]
+      if len(cs) != 1:
+        return UNMODELLED
+      col = cs[0]['id']
+    same = [c['id'] for c in P['columns'] if c['parent'] == tid and c['formula'] == formula and
+            c['colId'].startswith('gristHelper_Display')]
+    return ('OSetDisplay', tid, fld, col, bool(formula), same[0] if same else 0)
+  if name == 'AddEmptyRule':
+    if a[1] not in T:
+      return UNMODELLED
+    return ('OAddRule', T[a[1]]['id'], a[2] or 0, a[3] or 0)
+  if name == 'UpdateRecord' and a[1] in META_TABLES:
+    keys = set(a[3])
+    if keys == {'rules'} and a[1] in ('_grist_Tables_column', '_grist_Views_section_field', '_grist_Views_section'):
+      owner = {'_grist_Tables_column': 0, '_grist_Views_section_field': 1, '_grist_Views_section': 2}[a[1]]
+      return ('OSetRules', owner, a[2], reflist(a[3]['rules']))
+    if a[1] == '_grist_Views_section' and keys and keys <= {'options', 'theme', 'layoutSpec'}:
+      ss = [s for s in P['sections'] if s['id'] == a[2]]
+      if len(ss) != 1:
+        return ('OSetCustom', a[2], True)
+      cur = dict(zip(('layoutSpec', 'options', 'theme'), ss[0]['cust']))
+      cur.update(a[3])
+      return ('OSetCustom', a[2], bool(cur['layoutSpec'] or cur['options'] or cur['theme']))
+    if a[1] == '_grist_Pages' and keys <= {'indentation', 'pagePos'}:
+      return NOMETA
+    return UNMODELLED
+  if name == 'AddRecord' and a[1] == '_grist_Views_section_field':
+    if set(a[3]) == {'parentId', 'colRef'} and a[2] is None:
+      return ('OAddField', a[3]['parentId'], a[3]['colRef'])
+    return UNMODELLED
+  if name == 'RenameTable':
+    if a[1] not in T:
+      return UNMODELLED
+    new = [t for t in Q['tables'] if t['id'] == T[a[1]]['id']]
+    return ('ORenameTable', T[a[1]]['id'], names(new[0]['name'])) if len(new) == 1 else UNMODELLED
+  if name in ('AddRecord', 'BulkAddRecord', 'UpdateRecord', 'BulkUpdateRecord', 'RemoveRecord', 'BulkRemoveRecord',
+              'AddOrUpdateRecord', 'BulkAddOrUpdateRecord', 'ReplaceTableData') and not a[1].startswith('_grist_'):
+    return NOMETA
+  if name == 'Calculate':
+    return NOMETA
+  if name == 'ModifyColumn' and set(a[3] or {}) <= {'formula'}:
+    return NOMETA
+  return UNMODELLED
+
+
+# ------------------------------------------------------------------------------------------------
+# histories -> cases
+
+IMPORTS = ['Grist.Model.MetaCascade']
+
+
+def run_histories(ctx, nhist, nb, weights=None, seed_base=0):
+  """Random histories on the real engine; one record per successful bundle."""
+  import random
+  g = G()
+  rec = Recorder()
+  out = []
+  try:
+    for h in range(nhist):
+      rng = random.Random(ctx.rng.getrandbits(48))
+      gen = make_gen(rng, weights)
+      e, _ = g.new_doc()
+      gen.init_doc(e)
+      hist = []
+      for b in range(nb):
+        bundle = gen.bundle(e)
+        try:
+          _, snaps, mid, final = rec.run(e, copy.deepcopy(bundle))
+        except core.TieBroken:
+          raise
+        except Exception:
+          ctx.bump('bundles failed')
+          g.clean(e)
+          continue
+        gen.after_bundle(e)
+        hist.append(bundle)
+        out.append(dict(history=list(hist), bundle=bundle, snaps=snaps, mid=mid, final=final))
+  finally:
+    rec.uninstall()
+  return out
+
+
+def case_terms(r, names):
+  """Coq terms of one recorded bundle: (pre, ops, mid, final, python verdict of the oracle on final)."""
+  snaps = r['snaps'] + [r['mid']]
+  ops = [translate(a, snaps[i], snaps[i + 1], names) for i, a in enumerate(r['bundle'])]
+  r['ops'] = ops
+  verdict = not [i for i in refs_resolve(r['final']) if i[0] not in EXTRA_KINDS]
+  return '(%s, %s, %s, %s, %s)' % (coq_meta(snaps[0], names), core.coq_list([coq_op(o) for o in ops]),
+                                  coq_meta(r['mid'], names), coq_meta(r['final'], names), core.boollit(verdict))
+
+
+# issues the Python oracle reports beyond the Coq boolean (columns the model does not carry)
+EXTRA_KINDS = ('table.no-record-card', 'section.linkSrcCol', 'section.linkTargetCol', 'section.linkSrcSectionRef')
+
+CHECK_STEPS = ('fun c => match c with (pre, ops, mid, fin, v) => '
+               'match steps ops pre with Ok m => meta_eqb m mid | Unmodelled => true | Fail => false end end')
+CHECK_STEPS_OK = 'fun c => match c with (pre, ops, mid, fin, v) => res_ok (steps ops pre) end'
+CHECK_AUTO = ('fun c => match c with (pre, ops, mid, fin, v) => '
+              'match auto_fix (fuel_of mid) mid with Ok m => meta_eqb m fin | Unmodelled => true | Fail => false end end')
+CHECK_AUTO_OK = 'fun c => match c with (pre, ops, mid, fin, v) => res_ok (auto_fix (fuel_of mid) mid) end'
+CHECK_ORACLE = 'fun c => match c with (pre, ops, mid, fin, v) => Bool.eqb (RefsResolve fin) v end'
+
+
+# ==== end ====
